@@ -588,11 +588,11 @@ unsigned SeparationConstraint::right(void) const
 
 void SeparationConstraint::setSeparation(double gap) 
 {
+    // The vpsc::Constraint generated for the last projection is owned (and
+    // by now freed) by whoever ran that projection, so it must not be
+    // written to here.  Every projection generates the constraints again.
     this->gap = gap;
-    if (vpscConstraint != nullptr) 
-    {
-        vpscConstraint->gap = gap;
-    }
+    vpscConstraint = nullptr;
 }
 
 
